@@ -15,8 +15,6 @@ XNext == /\ Next
 XSpec == XInit /\ [][XNext]_<<vars, hist>>
 Case == LET e == Expected(inp) IN
         [inp |-> inp, rej |-> e.rej, g |-> GOut(e.g), free |-> SetToSeq(e.free), hist |-> hist,
-         \* runs with a deviation flag (classification of a known finding) also print what the I-layer built
-         ilayer |-> IF Dev = {} THEN GOut(EmptyG) ELSE GOut(g),
          back |-> IF inp.fam = "dsdna" /\ ~e.rej THEN GOut(SecondStrand(Complement(SecondStrand(e.g)))) ELSE GOut(EmptyG)]
 ExportInv == (pc \in {"done", "rejected"}) => PrintT(<<"CASE", ToJson(Case)>>)
 =============================================================================
